@@ -79,14 +79,16 @@ NoDesc == [kind |-> "-", pv |-> "-", basis |-> "-", inp |-> "-", fault |-> "-"]
 CutB(k) == d.fault = "cutB" \o ToString(k)
 CutA(k) == d.fault = "cutA" \o ToString(k)
 
-\* the host rebases the renter inputs (and only them) from the renter's basis to its own
+\* the host rebases the renter inputs (and only them) from the renter's basis to its own; an
+\* unconfirmed (ephemeral) input has no proof and is carried across unchanged, its parent
+\* transaction comes along in the request and is put into the host's pool before the final set
 RebaseFails == \/ d.basis = "forkx"                       \* it never saw the renter's fork
                \/ d.fault = "m1basis"                     \* unknown basis
-               \/ (d.basis # "same" /\ d.inp = "unconf")  \* an ephemeral input cannot be rebased alone
-               \/ (d.basis # "same" /\ d.fault = "m1value")  \* element invalid at the claimed basis
+               \/ (d.basis # "same" /\ d.inp = "conf" /\ d.fault = "m1value")  \* element invalid at the claimed basis
 \* the pool rejects the final set when a renter signature does not cover the host's transaction
+\* or an input misstates the output it spends
 PoolFails   == \/ d.fault \in {"m2id", "m3pol"}
-               \/ (d.fault = "m1value" /\ d.basis = "same")
+               \/ (d.fault = "m1value" /\ (d.basis = "same" \/ d.inp = "unconf"))
 \* the renter notices a corrupted final message
 M4Detected  == \/ d.fault \in {"m4empty", "m4sig"}
                \/ (d.fault = "m4txn" /\ (d.kind = "form" \/ ~DevNoIdCheck))
